@@ -296,7 +296,7 @@ def real_exchanges(ctx, traces, metas):
     from drivers import realproc as rp
     from props.reload_real import _parallel
     rng = ctx.rng
-    classes = ["sync", "gthread", "gevent"] if ctx.quick else ["sync", "gthread", "gevent", "eventlet"]
+    classes = ["sync", "gthread", "gevent", "eventlet"]
     nper = 25 if ctx.quick else 150
     progs = []
     for wkc in classes:
@@ -311,7 +311,14 @@ def real_exchanges(ctx, traces, metas):
             total = sum(sizes)
             produced = max(0, total - off) if prod in ("file", "filenofd") else total
             cl = NOCL if rng.random() < 0.5 else produced
+            if produced > 1 and rng.random() < 0.3:
+                # a range-style answer: fewer bytes announced than the producer holds (the surplus must not be sent)
+                cl = rng.choice([1, produced // 2, produced - 1] + ([10000, 8193, 20000] if produced > 20000 else []))
             lst.append((rq, {"status": status, "cl": cl, "prod": prod, "chunks": sizes, "off": off}))
+        # range-style answers from a real file through each class's own sendfile path
+        for clv, offv, ver in ((10000, 1, 11), (8193, 0, 11), (20000, 1, 10), (8192, 0, 11)):
+            lst.append(({"ver": ver, "head": False, "conn": "keep"},
+                        {"status": 200, "cl": clv, "prod": "file", "chunks": [70000], "off": offv}))
         progs.append((wkc, lst))
 
     def one_server(item, i):
